@@ -465,3 +465,66 @@ def h_owned(E, shape):
     method.step(Iterate(ctx["user"], ctx["params"], arr(x), arr(y)))
     E.prove(len(ctx["spec"]["handed"]) > 0, "C11.step_solver_saw_callback_matrices")
     common.check_snapshots(E, ctx["spec"]["handed"], "C11.step_solvers_leave_callback_results_unchanged")
+
+
+def h_large(E, shape):
+    """C14 beyond toy sizes: n = 17 (by default) free variables and one equality row with CONCRETE
+    derivative matrices (diagonal Hessian 2+j, Jacobian row j+1) and concrete dt, rho, but symbolic
+    base point, multiplier, gradient and constraint value -- everything the solver sees is linear, so
+    the returned first Newton step of each formulation is proved to solve the dense reference system.
+    Sizes above 16 matter: numpy's default sort stops being stable there."""
+    P = boot.mod("params")
+    N = boot.mod("newton")
+    Iterate = boot.mod("iterate").Iterate
+    Problem = boot.mod("problem").Problem
+    n, m = shape.get("n", 17), 1
+    fmt = shape.get("fmt", "coo")
+    g = [E.real(f"g{j}") for j in range(n)]
+    c0 = E.real("c0")
+    Hd = [2.0 + j for j in range(n)]
+    Jr = [1.0 + j for j in range(n)]
+    calls = []
+
+    class Prob(Problem):
+        def __init__(self):
+            super().__init__(arr([-INF] * n), arr([INF] * n), cons_lb=arr([0.0]), cons_ub=arr([0.0]))
+
+        def obj(self, x):
+            return E.real("f0")
+
+        def obj_grad(self, x):
+            return arr(g)
+
+        def cons(self, x):
+            return arr([c0])
+
+        def cons_jac(self, x):
+            return common.make_sparse(fmt, (m, n), [(0, j, Jr[j]) for j in range(n)])
+
+        def lag_hess(self, x, y):
+            calls.append(items(y))
+            return common.make_sparse(fmt, (n, n), [(j, j, Hd[j]) for j in range(n)])
+
+    user = Prob()
+    params = P.Params(step_solver_type=P.StepSolverType[shape["solver"]], newton_type=P.NewtonType[shape.get("newton", "Simplified")], validate_input=False)
+    xh = [E.real(f"xh{j}") for j in range(n)]
+    yh = [E.real("yh0")]
+    rho, dt = 1.5, 0.5  # lambda = 2, 1/(1 + lambda*rho) = 1/4: every constant the solvers derive is dyadic (exact in binary64)
+    rec = Recorder()
+    install_oracle(E, rec)
+    spy_step_result()
+    orig = Iterate(user, params, arr(xh), arr(yh))
+    method = N.newton_method(user, params, orig, dt, rho)
+    step = method.step(orig)
+    s = items(step.raw_dx) + items(step.dy)
+    E.prove(len(s) == n + m and not any(bool(v) for v in items(step.active_set)), "C14.step_shape")
+    # dense reference: F(z_hat) and F'(z_hat) of the implicit-Euler residual, empty active set
+    mult = yh[0] + rho * c0
+    dLx = [g[j] + Jr[j] * mult for j in range(n)]
+    F = [dt * dLx[j] for j in range(n)] + [-(dt * c0)]
+    ok = True
+    for a in range(n):
+        lhs = s[a] + dt * (Hd[a] * s[a] + rho * Jr[a] * sum((Jr[b] * s[b] for b in range(n)), 0.0)) + dt * Jr[a] * s[n]
+        ok = land(ok, lhs == F[a])
+    ok = land(ok, -dt * sum((Jr[b] * s[b] for b in range(n)), 0.0) + s[n] == F[n])
+    E.prove(ok, "C14.step_solves_reference_newton_system", info=dict(n=n))
